@@ -121,7 +121,7 @@ PROPS = {
         level="model_checking",
         level_text='bounded model checking by symbolic execution: on every feasible path of Build + ParseString over a symbolic token stream: no panic; nil error implies non-nil AST; an error implements participle.Error, comes with a non-nil partial AST, its position is the position of a token of the input, an UnexpectedTokenError carries the token at that position, and Error() is the documented [file:]line:col: message rendering',
         level_note='trusted: the reference semantics (own tag parser + evaluator written from the README, validated natively against the implementation on 960k random cases while designing), the reflect model of the executor (sampled paths are replayed natively with the real reflect on every run), z3; bounds: catalogue grammars x streams of <= 5 (quick) / <= 7 (thorough) tokens of arbitrary type and arbitrary one-byte text, lookahead an unconstrained 64-bit int, AllowTrailing symbolic',
-        runs=[dict(pkg=".", files=["root/zz_verif_ref.go", "root/zz_verif_ggcore.go", "root/zz_verif_parse.go", "root/zz_verif_grammars.go", "root/zz_verif_gengrammar.go", "root/zz_verif_entry.go"], harness='^VH_C06_', reach={'VH_C06_Seq': ['ok', 'error', 'unexpected-token'], 'VH_C06_EmptyTok': ['ok', 'error'], 'VH_C06_Bytes': ['ok', 'lex-error', 'parse-error']})],
+        runs=[dict(pkg=".", files=["root/zz_verif_ref.go", "root/zz_verif_ggcore.go", "root/zz_verif_parse.go", "root/zz_verif_grammars.go", "root/zz_verif_gengrammar.go", "root/zz_verif_entry.go"], harness='^VH_C06_', reach={'VH_C06_Seq': ['ok', 'error', 'unexpected-token'], 'VH_C06_EmptyTok': ['ok', 'error'], 'VH_C06_Bytes': ['ok', 'lex-error', 'parse-error'], 'VH_C06_LongError': ['lex-error']})],
         bounds={'quick': 'streams of <= 5 tokens + EOF, token types arbitrary 64-bit values != EOF, token texts arbitrary single bytes, lookahead any int (negative = unlimited), AllowTrailing on/off; symbols A,B,C,Ws,Cm', 'thorough': 'as quick with streams of <= 7 tokens'},
         outside='stack depth and running time on long or deeply nested inputs (a bounded symbolic run says nothing about them); lexing failures through the real lexers (covered by C03/C07 at the lexer level); grammars outside the catalogue; user Parseable/Capture code',
         assumptions=["text/scanner, strconv, unicode are executed from SSA; reflect is modelled over go/types; fmt by a small printf model",
@@ -191,7 +191,7 @@ PROPS = {
         level_note="trusted: uninterpreted-function model of strconv.ParseInt/ParseUint (functional consistency + 'on success the value fits bitSize'); reflect model (SetInt/SetUint truncate like the real ones; sampled paths replayed natively with real reflect and real strconv); z3",
         runs=[dict(pkg=".", files=["root/zz_verif_ref.go", "root/zz_verif_ggcore.go", "root/zz_verif_parse.go", "root/zz_verif_grammars.go", "root/zz_verif_num.go"], harness="^VH_C17_",
                    reach={"VH_C17_Int8": ["converts", "rejects"], "VH_C17_Uint16": ["converts", "rejects"], "VH_C17_Alt": ["converts", "rejects", "other-alternative"],
-                          "VH_C17_Join": ["converts", "rejects"], "VH_C17_Slice": ["converts", "rejects"], "VH_C17_Float32": ["converts", "rejects"]})],
+                          "VH_C17_Join": ["converts", "rejects"], "VH_C17_Slice": ["converts", "rejects"], "VH_C17_SliceBatch": ["converts", "rejects"], "VH_C17_Float32": ["converts", "rejects"]})],
         bounds=dict(quick="family A: 12 field shapes x all (value, ok) results of the uninterpreted conversion (64-bit symbolic); family B: 40 boundary texts (width limits of every size, hex/octal/binary prefixes, underscores, empty, exponent, Inf/NaN, float32 overflow) x {joined with '-', 1-2 slice elements, float32, float64}",
                     thorough="same (the finite kind set is complete)"),
         outside="numeric texts outside the catalogue for floats and slices (family B is an enumeration, not solver-decided); complex kinds",
